@@ -156,8 +156,8 @@ def run(ctx, V):
             bad = monitor(cfg, devtab, consts, w, t, r)
             for clause, site, detail in bad:
                 V.violation(clause, site, dict(config=cfg.text(), request="%s %s" % (w, ",".join(t)), impl=line), detail)
-            # exact correspondence, except the pre-check bit which C02 owns
-            strip = lambda s: " ".join(x for x in s.split() if not x.startswith("check="))
+            # exact correspondence (queues, total and the dev_check_actions verdict)
+            strip = lambda s: s
             if not bad and strip(line) != strip(m):
                 V.tie_broken("correspondence", "R-ENQ", "impl: %s\nmodel: %s" % (line, m), case=dict(config=cfg.text(), request="%s %s" % (w, ",".join(t))))
 
